@@ -242,6 +242,10 @@ type c13World struct {
 	bugIds   []string
 	bugOps   map[string][]string // bug id -> comment-bearing op ids (create op first)
 	identIds []string
+	// value of the metadata key c13MetaKey -> ids carrying it on the create operation /
+	// on the first identity version (only entities that were not engineered carry one)
+	bugMeta   map[string][]string
+	identMeta map[string][]string
 }
 
 const c13Hex = "0123456789abcdef"
@@ -252,7 +256,7 @@ func c13Build(p c13Pop, acc *c13Acc) (*c13World, error) {
 	if err != nil {
 		return nil, err
 	}
-	cw := &c13World{w: w, rep: w.Replicas[0], bugOps: map[string][]string{}}
+	cw := &c13World{w: w, rep: w.Replicas[0], bugOps: map[string][]string{}, bugMeta: map[string][]string{}, identMeta: map[string][]string{}}
 	r := cw.rep
 
 	nEngIdent, nEngBug := 0, 0
@@ -278,13 +282,31 @@ func c13Build(p c13Pop, acc *c13Acc) (*c13World, error) {
 		cw.identIds = append(cw.identIds, string(i.Id()))
 		return nil
 	}
+	// metadata values for the lookups by metadata: drawn from a small pool, so that some values are
+	// carried by one entity, some by several, and some entities carry none
+	metaValue := func(n int) string {
+		if n < 2 {
+			n = 2
+		}
+		if rng.Intn(5) == 0 {
+			return ""
+		}
+		return fmt.Sprintf("o%d", rng.Intn((n+1)/2))
+	}
 	for i := 0; i < baseIdents; i++ {
 		id, err := identity.NewIdentity(r.Repo, fmt.Sprintf("user%d", i), fmt.Sprintf("user%d@example.com", i))
 		if err != nil {
 			return cw, err
 		}
+		mv := metaValue(baseIdents)
+		if mv != "" {
+			id.SetMetadata(c13MetaKey, mv)
+		}
 		if err := commitIdent(id); err != nil {
 			return cw, err
+		}
+		if mv != "" {
+			cw.identMeta[mv] = append(cw.identMeta[mv], string(id.Id()))
 		}
 	}
 	record := func(kind string, k, realised, tries int) {
@@ -346,12 +368,20 @@ func c13Build(p c13Pop, acc *c13Acc) (*c13World, error) {
 		return nil
 	}
 	for i := 0; i < baseBugs; i++ {
-		b, _, err := bug.Create(author(), w.Now(), fmt.Sprintf("bug %d", i), fmt.Sprintf("message %d", i), nil, nil)
+		var meta map[string]string
+		mv := metaValue(baseBugs)
+		if mv != "" {
+			meta = map[string]string{c13MetaKey: mv}
+		}
+		b, _, err := bug.Create(author(), w.Now(), fmt.Sprintf("bug %d", i), fmt.Sprintf("message %d", i), nil, meta)
 		if err != nil {
 			return cw, err
 		}
 		if err := finishBug(b, ncom()); err != nil {
 			return cw, err
+		}
+		if mv != "" {
+			cw.bugMeta[mv] = append(cw.bugMeta[mv], string(b.Id()))
 		}
 	}
 	// appendEngComment re-reads a committed bug and appends one comment whose op id starts with want.
@@ -892,6 +922,9 @@ func c13RunPop(p c13Pop) c13PopResult {
 			}
 		}
 	}
+	// the same repository in other load states (c13_loadstate.go); replaces the open cache
+	c13LoadStates(p, cw, c, bugPop, identPop, comPop, commentOf, acc)
+
 	acc.count("distinct_queries/bugs", len(bugQ))
 	acc.count("distinct_queries/identities", len(identQ))
 	acc.count("distinct_queries/comments", len(comQ))
@@ -1067,6 +1100,7 @@ func runC13(tier, replay string) int {
 
 	// (b) populations, one child process each
 	outcomes := runBatchesRetry[c13Pop, c13PopResult](r, "c13pop", pops, 1, 8*time.Minute)
+	partial := map[string]int{}
 	for i, oc := range outcomes {
 		p := pops[i]
 		if oc.Crashed {
@@ -1096,6 +1130,9 @@ func runC13(tier, replay string) int {
 		}
 		for k, v := range res.Counters {
 			r.Count(k, v)
+			if ns, ok := strings.CutPrefix(k, "loadstate_ambiguous_partially_loaded/"); ok {
+				partial[ns] += v
+			}
 		}
 		for set, members := range res.Sets {
 			for _, m := range members {
@@ -1114,15 +1151,25 @@ func runC13(tier, replay string) int {
 			fmt.Printf("replay of population %s:\n%s\n", p.Name, b)
 		}
 	}
-	min := 400
+	min := 3000
 	if replay != "" {
 		min = 0
+	} else {
+		// the load-state part must have met what it is there for: ambiguous prefixes of which some
+		// but not all matching entities are in memory
+		for _, ns := range []string{"bugs", "identities"} {
+			if partial[ns] == 0 {
+				r.Inconclusive("no ambiguous " + ns + " prefix was asked while only a part of the matching " + ns + " were loaded")
+			}
+		}
 	}
-	return r.Finish("reference model (sorted population + binary search) predicting unique / multiple(exact list) / none for every queried string; queries = every prefix length 0..64 of every bug id, identity id and comment combined id of real repositories with engineered shared prefixes, plus one-character perturbations (last character, any character of the full id, a non-hex character, one extra character) and ids of the other namespace; APIs: Bugs/Identities ResolvePrefix + ResolveExcerptPrefix, Bugs.ResolveComment, _select.Resolve with and without a preselected bug; plus SeparateIds(CombineIds(b,o)[:L]) for 10 002 id pairs x 65 lengths. A query is non-trivial when the prefix is non-empty and the population has at least two members; distinct = distinct (API, query kind, prefix length, expected outcome class)",
+	return r.Finish("reference model (sorted population + binary search) predicting unique / multiple(exact list) / none for every queried string; queries = every prefix length 0..64 of every bug id, identity id and comment combined id of real repositories with engineered shared prefixes, plus one-character perturbations (last character, any character of the full id, a non-hex character, one extra character) and ids of the other namespace; APIs: Bugs/Identities ResolvePrefix + ResolveExcerptPrefix, Bugs.ResolveComment, _select.Resolve with and without a preselected bug; the same lookups (all prefixes, last-character perturbations, one extra character, ids of the other namespace; ResolveComment on a sample of comments; ResolveBugCreateMetadata / ResolveIdentityImmutableMetadata on planted values) repeated against the same repository in the load states all-loaded (cache just built), reopened-none, reopened-subset / reopened-complement (every other id in sorted order resolved by full id), lru-small (1..3 loaded entities, then a shuffled mix during which the loaded set changes), every answer compared with the model AND with the answer of the all-loaded state (target or error class + full match list); plus SeparateIds(CombineIds(b,o)[:L]) for 10 002 id pairs x 65 lengths. A query is non-trivial when the prefix is non-empty and the population has at least two members; distinct = distinct (API, query kind, prefix length, expected outcome class)",
 		min, []string{
 			"ids cannot be chosen (sha256 over a serialisation with a random nonce): population sizes and engineered prefix lengths are a function of the seed, the concrete ids are not",
 			"the population is what was committed through the entity API, cross-checked against the ref names read by gitraw; a comment's combined id is taken from Snapshot.Comments and checked to split into prefixes of (bug id, operation id) at every length",
 			"for ResolveComment only success/failure and the returned (bug, comment) are judged; the error type for zero or several matching comments is not prescribed by the statement",
 			"_select.Resolve with a preselected bug may fall back to it when the first argument matches nothing, provided the arguments are handed back untouched",
+			"load states: which bugs are in memory is read back through the hook VerifLoadedBugIds; for identities there is no such hook, the loaded set is the one the recipe resolved by full id (valid on the unchanged tree, used for the evidence counters only, never by the oracle)",
+			"lookups by metadata are outside the statement's wording (id prefixes): only 'the entity when exactly one carries the value, a failure otherwise' is judged against the model, plus equality of the answers between load states",
 		})
 }
